@@ -58,7 +58,7 @@ package cluster
 // peers callback (in order, each handed its own member), the senders are awaited before the next update is taken,
 // and the consumer goes away only when told to stop - a failed send to one member ends only that member's sender.
 //@ func (*Channel).handleOverSizedMessages
-//@   props C19
+//@   props C19 C10 C09
 //@   abstract
 //@   nosafe
 //@   ensures [stops-only-when-told] called("select") && ret("select") == 1
@@ -69,7 +69,7 @@ package cluster
 //@   loop 2 invariant rangeindex < len(ret("dynamic:field:peers")) && count("go.stmt") == count("WaitGroup).Add") && count("go.stmt") == pre(count("go.stmt")) + rangeindex + 1
 //@   noeffect dynamic:field:peers
 //@ func (*Channel).handleOverSizedMessages$1
-//@   props C19
+//@   props C19 C10 C09
 //@   abstract
 //@   nosafe
 //@   at call dynamic:field:sendOversize assert [sends-the-update-to-its-member] arg0 == n && arg1 == deref(b)
